@@ -20,6 +20,10 @@ CHECKS = {
    text='Machine-checked (axiom-free): every satisfiable answer of the model of sat.solve_cnf carries a satisfying assignment (for all clause sets, set-iteration orders, fuel); every trace accepted by check_trace refutes the clause set. The model replays solve_cnf exactly (verdict, assignment, every trace entry) on ~3000 clause sets per run (exhaustive small shapes + random up to 12 vars/60 clauses, duplicates, tautologies, empty clauses); each unsatisfiable answer of the implementation is validated by the verified checker and both verdicts by brute force; termination observed under an alarm; Tseitin encodings checked and compared with truth tables.',
    note='Trusted: Coq kernel; model tie = differential replay; termination of CDCL and unsat-soundness of the solver model itself are not proved (unsat answers are validated per instance by the proved checker); Tseitin equisatisfiability is validated per formula.',
    design='7/C15'),
+ 'C17': dict(category='proof', technique='Coq proofs: soundness invariant of the Nieuwenhuis-Oliveras model, naive closure sound+complete, explanation checker sound; exact differential replay (test matrix + explain paths); per-instance completeness against the proved naive closure',
+   text='Machine-checked (axiom-free): after any merge sequence the model of CongClosure reports two constants equal only if the inductive congruence closure of the merged equations relates them (no_sound); the naive reference closure identifies exactly the related constants (sound and complete); explanations accepted by explain_check use only merged equations and prove their pairs. The model replays prover/congc.py exactly (all test answers and explain paths on ~1300 sequences/prefixes per run); the implementation answers are compared with the naive closure in both directions, explanations are checked, merge order is permuted, the HOL wrapper is validated through the naive closure over the subterm universe and theory.check_proof.',
+   note='Trusted: Coq kernel; model tie = exact differential replay; completeness of the NO structure is validated per instance, not proved; ematch not covered.',
+   design='7/C17'),
 }
 m = {
  'version': 1,
